@@ -90,8 +90,15 @@ def run_tracker(chk, replay):
                                    seed=chk.seed, workers=TLC_WORKERS)
         allp, st5 = vf.tlc_gen("IqTrackerGen.tla", "IqTrackerGenAll.cfg" if quick else "IqTrackerGenAll7.cfg")
         idp, st6 = vf.tlc_gen("IqTrackerGen.tla", "IqTrackerGenIds.cfg")
-        gen = {"all_paths": st5, "all_paths_caller_ids": st6, "tour_1_request": st1, "tour_2_requests": st2, "simulate": st3}
-        behs = allp + idp + t1 + t2 + sim
+        # session histories: every sequence of openings / closings (up to 6, thorough 7 events) with one request sent at any
+        # position, negotiated the classic way (SASL, bind, <enable/>, <resume/>) and once more with SASL 2 / bind 2 / inline
+        # stream management; and a tour whose state includes which kinds of session the client has already had
+        sess, st7 = vf.tlc_gen("IqTrackerGen.tla", "IqTrackerGenSess6.cfg" if quick else "IqTrackerGenSess.cfg")
+        sess2 = [dict(b, transport="sasl2") for b in sess]
+        tsess, st8 = vf.tlc_gen("IqTrackerGen.tla", "IqTrackerGenTourSess.cfg")
+        gen = {"all_paths": st5, "all_paths_caller_ids": st6, "session_histories": st7, "session_histories_sasl2": {"behaviours": len(sess2)},
+               "tour_session_history": st8, "tour_1_request": st1, "tour_2_requests": st2, "simulate": st3}
+        behs = allp + sess + sess2 + idp + tsess + t1 + t2 + sim
         if not quick:
             t3, st4 = vf.tlc_gen("IqTrackerGen.tla", "IqTrackerGenTourFull.cfg")
             st4["replayed"] = min(len(t3), 15000)
@@ -238,6 +245,9 @@ def run(chk, replay=None):
                        "reply carries the id the request's stanza was really written with; "
                        "transition tour of the one-request model (every transition, all sender classes and iq types), "
                        "all send/reply sequences of length 4 with two requests and all id choices, "
+                       "all session histories (open plain/sm/smr/resumed/refused-resume, cut, user close) of length 6 (thorough 7) with "
+                       "one request sent at any position, over classic SASL+bind+XEP-0198 and over SASL 2 + bind 2 with inline "
+                       "resume/enable, a tour whose state includes the kinds of session the client has had, "
                        "transition tour of the two-request model, seeded random walks with three requests; each replayed on a real "
                        "QXmppClient (sendIq, sendGenericIq) connected to a scripted server over 127.0.0.1 (real SASL, bind, XEP-0198 "
                        "enable/resume/failed resume, cut, disconnectFromServer, destruction) and validated by IqTrackerTrace.tla; "
